@@ -13,12 +13,12 @@ LOW = b'abcdefghijklmnopqrstuvwxyz'
 SRC = LOW + b'0123456789+.-'
 VERC = b'0123456789abcdefghijklmnopqrstuvwxyz.+~'
 TXT = bytes(x for x in range(0x21, 0x7f))
-DATES = [b'Mon, 02 Jan 2006 15:04:05 -0700', b'Tue, 10 Nov 2009 23:00:00 +0000', b'Sat, 29 Feb 2020 01:02:03 +0530']
+DATES = [b'Sat, 29 Feb 2020 01:02:03 +0530', b'Mon, 02 Jan 2006 15:04:05 -0700', b'Tue, 10 Nov 2009 23:00:00 +0000']
 LAYOUT = b'Mon, 02 Jan 2006 15:04:05 -0700'
 META = dict(
     functions_encoded=['changelog.Parse', 'changelog.ParseOne', 'changelog.partition', 'changelog.trim', 'bufio.Reader (from SSA)', 'version.Parse', 'strings.Trim/SplitN/Split (models)'],
     stubs=['time.Parse: uninterpreted (TimeOK, TimeW, TimeE as functions of layout and text; the three well-formed date texts of the templates are assumed to parse)',
-           '(time.Time).Equal / Zone over those abstract instants', 'fmt.Errorf (opaque error)'],
+           '(time.Time).Equal / Zone / In / FixedZone over those abstract instants; the zone offsets of the three template dates are assumed to be what their text says', 'fmt.Errorf (opaque error)'],
     bounds={'quick': 'changelogs of 1-2 entries (1-2 distributions, 0-1 extra options, body of 1-2 lines with or without an inner blank line, 1-2 blank lines between entries, final newline or not), leaves of 1-2 symbolic characters; every truncation offset of each',
             'thorough': 'up to 3 entries, leaves up to 3 characters'},
     outside_claim=['that time.Parse reads RFC 1123 dates correctly (stdlib)', 'larger changelogs'],
@@ -127,6 +127,7 @@ def build(env, job):
     doc, info = render(entries, sh)
     for d in DATES:
         sym.assume.append(models.time_ok_term(LAYOUT, d))
+        sym.assume.append(models.time_zone_term(LAYOUT, d) == zone_of(d))
     return sh, sym, entries, doc, info
 
 
@@ -155,9 +156,15 @@ def run_job(env, job):
     return merge_results(rs)
 
 
+def zone_of(d):
+    z = d[-5:].decode()
+    return (1 if z[0] == '+' else -1) * (int(z[1:3]) * 3600 + int(z[3:5]) * 60)
+
+
 def validation_setup(I, ctx):
     for d in DATES:
         ctx.assume(models.time_ok_term(LAYOUT, d))
+        ctx.assume(models.time_zone_term(LAYOUT, d) == zone_of(d))
 
 
 def validation_calls(env, seed):
